@@ -49,7 +49,7 @@ def run(ctx):
     cg = CallGraph(F)
     rows = table("e1_rows")["C14"]
     reach, sites = c12.panic_obligations(F, res, ROOTS, rows, cg=cg, extra=[lambda s: e8_state.resolve_unwrap_discharge(F, s)])
-    res.floor("functions in closure", res.analysed.get("functions in closure", 0), 600)
+    res.floor("functions in closure", res.analysed.get("functions in closure", 0), 400)
     res.floor("panic sites", res.analysed.get("panic sites", 0), 40)
     c12.loop_obligations(F, res, reach, crates=("tx3_tir", "tx3_cardano", "tx3_resolver"), rows=table("e1_rows").get("C14-loops", []))
     if ctx.tier == "thorough":
